@@ -35,6 +35,24 @@ NHIST = 0
 MODEL_ROWS = 4000        # rows of a huge file that are also pushed through the Lean driver
 
 
+def od(c, key):
+    """(name, value) pairs of a dict field in the recorded insertion order (replay files are written with sorted keys)"""
+    d = c[key]
+    order = [k for k in c.get(key + "_order", []) if k in d]
+    return [(k, d[k]) for k in order + [k for k in d if k not in order]]
+
+
+def with_orders(c):
+    if c.get("kind") == "result":
+        for key in ("info", "stats", "arrays", "trajs"):
+            c.setdefault(key + "_order", list(c[key]))
+    elif c.get("kind") == "history" and c.get("target") == "res":
+        for st in c["steps"]:
+            for key in ("info", "stats", "arrays", "trajs"):
+                st["payload"].setdefault(key + "_order", list(st["payload"][key]))
+    return c
+
+
 def tmpdir():
     global TMP
     if TMP is None:
@@ -116,6 +134,11 @@ def rand_string(r):
 
 
 def gen_cases(ctx):
+    for c in gen_cases_raw(ctx):
+        yield with_orders(c)
+
+
+def gen_cases_raw(ctx):
     r = ctx.rng
     th = ctx.thorough
     # corpus (runs first): F14, the stamp that came back 1.86 ns off before the repair; the carry of the repaired code
@@ -236,7 +259,7 @@ def gen_cases(ctx):
             trajs[names[-1]] = trajs[names[0]]
         yield base
         if r.random() < 0.35:                            # L9: the same names, inserted in the reverse order
-            rev = dict(base)
+            rev = {k: v for k, v in base.items() if not k.endswith("_order")}
             rev["trajs"] = dict(reversed(list(trajs.items())))
             rev["arrays"] = dict(reversed(list(arrays.items())))
             if "same_object" in base:
@@ -460,13 +483,13 @@ def impl_text(c):
 def result_of(c):
     from evo.core import result
     res = result.Result()
-    for k, v in c["info"].items():
+    for k, v in od(c, "info"):
         res.add_info({k: v})
-    res.add_stats(dict(c["stats"]))
-    for k, v in c["arrays"].items():
+    res.add_stats(dict(od(c, "stats")))
+    for k, v in od(c, "arrays"):
         res.add_np_array(k, np.asarray(flav(v, c.get("array_flavour"))))
     built = {}
-    for k, t in c["trajs"].items():
+    for k, t in od(c, "trajs"):
         src = c.get("same_object", {}).get(k)
         built[k] = built[src] if src in built else (mk_traj(t) if t["type"] == "tum" else mk_path(t))
         res.add_trajectory(k, built[k])
@@ -551,9 +574,9 @@ def result_seen(back):
 
 
 def result_want(c, flag):
-    return {"info": c["info"], "stats": {k: tf.bits(v) for k, v in c["stats"].items()},
-            "arrays": {k: ["float64", [len(v)], [tf.bits(x) for x in v]] for k, v in c["arrays"].items()},
-            "trajs": {k: {kk: vv for kk, vv in want_bits(t).items()} for k, t in c["trajs"].items()} if flag else {}}
+    return {"info": c["info"], "stats": {k: tf.bits(v) for k, v in od(c, "stats")},
+            "arrays": {k: ["float64", [len(v)], [tf.bits(x) for x in v]] for k, v in od(c, "arrays")},
+            "trajs": {k: {kk: vv for kk, vv in want_bits(t).items()} for k, t in od(c, "trajs")} if flag else {}}
 
 
 def strip_lens(d):
@@ -773,18 +796,18 @@ def model_lines(c, impl):
         return text_lines(c["fmt"], impl["text"], want_bits(c)["rows"])
     if k == "result":
         ls = []
-        for kk, v in c["info"].items():
+        for kk, v in od(c, "info"):
             ls += [f"C06 esc {tf.hexs(kk)}", f"C06 esc {tf.hexs(v)}"]
-        for kk, v in c["info"].items():
+        for kk, v in od(c, "info"):
             ls += [f"C06 unesc {tf.hexs(json.dumps(v)[1:-1])}"]
         for key, tok in NUM.findall(impl["stats_txt"]):
             ls += [f"C06 num {tf.hexs(tok)}"]
-        for name, t in c["trajs"].items():
+        for name, t in od(c, "trajs"):
             member = name + (".tum" if t["type"] == "tum" else ".kitti")
             if member in impl["members"]:
                 ls += text_lines(t["type"], impl["members"][member], want_bits(t)["rows"])
-        ls.append("C06 zip %d %d %s %d %s" % (1 if c["load_traj"] else 0, len(c["arrays"]), " ".join(tf.hexs(n) for n in c["arrays"]),
-                                             len(c["trajs"]), " ".join(("t " if t["type"] == "tum" else "k ") + tf.hexs(n) for n, t in c["trajs"].items())))
+        ls.append("C06 zip %d %d %s %d %s" % (1 if c["load_traj"] else 0, len(c["arrays"]), " ".join(tf.hexs(n) for n, _ in od(c, "arrays")),
+                                             len(c["trajs"]), " ".join(("t " if t["type"] == "tum" else "k ") + tf.hexs(n) for n, t in od(c, "trajs"))))
         return [" ".join(l.split()) for l in ls]
     if k == "df":
         n = len(c["stamps"])
@@ -922,13 +945,13 @@ def judge_result(ctx, c, impl, outs):
     # ---- oracle: everything comes back identical
     if impl["info"] != c["info"]:
         ctx.fail(c, "lossless-info", f"info written {c['info']!r}, read {impl['info']!r}")
-    if impl["stats"] != {k: tf.bits(v) for k, v in c["stats"].items()}:
+    if impl["stats"] != {k: tf.bits(v) for k, v in od(c, "stats")}:
         bad = [k for k in c["stats"] if impl["stats"].get(k) != tf.bits(c["stats"][k])]
         ctx.fail(c, "lossless-stats", f"statistics {bad}: written {[c['stats'][k] for k in bad][:3]}, read {[tf.from_bits(impl['stats'][k]) if k in impl['stats'] else None for k in bad][:3]}")
     if set(impl["arrays"]) != set(c["arrays"]):
         ctx.fail(c, "lossless-arrays", f"arrays written {sorted(c['arrays'])}, read {sorted(impl['arrays'])}")
     else:
-        for k, v in c["arrays"].items():
+        for k, v in od(c, "arrays"):
             a = impl["arrays"][k]
             want_dtype = {"int": "int64", "f32": "float32"}.get(c.get("array_flavour"), "float64")
             if a["dtype"] != want_dtype or a["shape"] != [len(v)] or a["bits"] != [tf.bits(x) for x in v]:
@@ -937,34 +960,34 @@ def judge_result(ctx, c, impl, outs):
         if set(impl["trajs"]) != set(c["trajs"]):
             ctx.fail(c, "lossless-trajectories", f"written {sorted(c['trajs'])}, read {sorted(impl['trajs'])}")
         else:
-            for k, t in c["trajs"].items():
+            for k, t in od(c, "trajs"):
                 cmp_traj(ctx, c, "embedded trajectory " + k, want_bits(t), impl["trajs"][k])
     elif impl["trajs"]:
         ctx.fail(c, "trajectories-loaded-unasked", f"{sorted(impl['trajs'])}")
     # ---- correspondence: JSON strings and numbers, embedded texts
     pos = 0
     parts = []
-    for kk, v in c["info"].items():
+    for kk, v in od(c, "info"):
         parts.append('"' + unhex(outs[pos]) + '": "' + unhex(outs[pos + 1]) + '"')
         pos += 2
     expect_info = "{" + ", ".join(parts) + "}"
     if expect_info != impl["info_txt"]:
         ctx.mismatch(c, "info.json differs from the model's escaping (Json.escape)", impl["info_txt"][:200], expect_info[:200])
-    for kk, v in c["info"].items():
+    for kk, v in od(c, "info"):
         if outs[pos] == "E_FORMAT" or unhex(outs[pos]) != v:
             ctx.mismatch(c, "Json.unescape differs from json.loads on an info string", v, outs[pos])
         pos += 1
         ctx.count("branch", "json-string:" + ("ascii" if v.isascii() and v.isprintable() and '"' not in v and "\\" not in v else "escaped"))
     toks = NUM.findall(impl["stats_txt"])
-    if [json.loads('"' + k + '"') for k, _ in toks] != list(c["stats"].keys()):
-        ctx.mismatch(c, "stats.json keys/order unexpected", impl["stats_txt"][:200], list(c["stats"].keys()))
+    if [json.loads('"' + k + '"') for k, _ in toks] != [k for k, _ in od(c, "stats")]:
+        ctx.mismatch(c, "stats.json keys/order unexpected", impl["stats_txt"][:200], [k for k, _ in od(c, "stats")])
     else:
-        for (k, tok), x in zip(toks, c["stats"].values()):
+        for (k, tok), x in zip(toks, [v for _, v in od(c, "stats")]):
             if outs[pos] != rat(x):
                 ctx.mismatch(c, f"stats.json token {tok} for {k}: rne(parseDec token) is not the statistic {x!r}", tok, outs[pos])
             pos += 1
             ctx.count("branch", "json-number")
-    for name, t in c["trajs"].items():
+    for name, t in od(c, "trajs"):
         member = name + (".tum" if t["type"] == "tum" else ".kitti")
         if member in impl["members"]:
             judge_text_model(ctx, c, "archive member " + member, t["type"], outs[pos:pos + 2], want_bits(t)["rows"], impl["members"][member])
@@ -988,7 +1011,7 @@ def judge_result(ctx, c, impl, outs):
         if zp[3] != "1":
             ctx.mismatch(c, "model: a member comes back under a different name", None, outs[pos])
     if c.get("multi"):
-        lens = [len(impl["members"].get(n + (".tum" if t["type"] == "tum" else ".kitti"), "")) for n, t in c["trajs"].items()]
+        lens = [len(impl["members"].get(n + (".tum" if t["type"] == "tum" else ".kitti"), "")) for n, t in od(c, "trajs")]
         ctx.count("branch", "result:multi:" + ("decreasing-text" if any(b < a for a, b in zip(lens, lens[1:])) else "non-decreasing-text"))
     ctx.count("branch", "result:" + ("with-traj" if c["trajs"] else "no-traj") + (":loaded" if c["load_traj"] else ":not-loaded"))
     nontrivial = any(not (v.isascii() and v.isprintable()) or '"' in v or "\\" in v for v in c["info"].values()) or bool(c["trajs"])
